@@ -741,6 +741,28 @@ func c20R5(p *core.Program, r *core.Report, infl *core.Func) {
 		}
 		n++
 		w0 := w
+		// ... and hands its input on unchanged: the text given to the next function of the chain is the wrapper's own
+		// parameter (a normalised, trimmed or re-cased copy changes the prefix that must come back byte for byte)
+		for _, f := range w.AllFuncs() {
+			finfo := f.Info()
+			for _, c := range core.Calls(f.Body, false) {
+				callee := p.FuncOfObj(core.CalleeFunc(finfo, c))
+				if callee == nil || !chain[callee] {
+					continue
+				}
+				for _, a := range c.Args {
+					if t := finfo.TypeOf(a); t == nil || !isBasicKind(t, types.String) {
+						continue
+					}
+					e, _ := core.Resolve(finfo, w.Body, a)
+					v := core.VarOf(finfo, e)
+					// the wrapper's own parameter, or the parameter of the literal it sits in (a cached thunk's key)
+					good := v != nil && (isParamOf(w0, v) || isParamOf(f, v)) && len(core.DefsOf(finfo, w.Body, v)) == 0
+					r.Check(good, rule, w, "hands its input on unchanged: "+core.ExprStr(c.Fun)+"("+core.ExprStr(a)+")", c.Pos(), "the argument is the wrapper's own parameter",
+						"this wrapper gives `"+core.ExprStr(e)+"` to the next function instead of its input: the text is altered before it is inflected (normalised, trimmed, re-cased), so the prefix in front of the last word does not come back unchanged")
+				}
+			}
+		}
 		for _, f := range w.AllFuncs() {
 			info := f.Info()
 			ast.Inspect(f.Body, func(nd ast.Node) bool {
